@@ -117,6 +117,77 @@ def task_energy_totals(ctx):
     ctx.undecided_clause("orbital energies are eigenvalues of the reported Fock matrix (LAPACK, A2); excited-state branch of Energy.forward")
 
 
+def replay_uhf_gap(model):
+    """real UHF batches: the reported gap of every molecule and spin channel equals LUMO-HOMO of the reported orbital energies."""
+    import torch
+    from seqm.seqm_functions.constants import Constants
+    from seqm.Molecule import Molecule
+    from seqm.ElectronicStructure import Electronic_Structure
+
+    torch.set_default_dtype(torch.float64)
+    params = {"method": "AM1", "scf_eps": 1e-7, "scf_converger": [1], "sp2": [False, 1e-5], "elements": [0, 1, 6, 8], "learned": [], "pair_outer_cutoff": 1e10, "eig": True, "UHF": True}
+    species = torch.tensor([[8, 6, 1, 1], [8, 1, 1, 0]])
+    coords = torch.tensor([[[0.0, 0, 0], [1.22, 0, 0], [1.82, 0.94, 0], [1.82, -0.94, 0]], [[0.0, 0, 0], [0.96, 0, 0], [-0.24, 0.93, 0], [0, 0, 0]]])
+    mol = Molecule(Constants(), params, coords, species, charges=torch.tensor([0, 1]), mult=torch.tensor([1, 2]))
+    Electronic_Structure(params)(mol)
+    worst, rows = 0.0, []
+    for m in range(2):
+        for s in range(2):
+            n = int(mol.nocc[m, s])
+            want = float(mol.e_mo[m, s, n] - mol.e_mo[m, s, n - 1])
+            got = float(mol.e_gap[m, s])
+            rows.append({"molecule": m, "spin": s, "nocc": n, "reported_gap": got, "lumo-homo": want})
+            worst = max(worst, abs(got - want))
+    return {"reproduced": bool(worst > 1e-8), "input": "UHF AM1 batch [CH2O singlet, H2O+ doublet + padding]", "max_abs_gap_error_eV": worst, "rows": rows}
+
+
+def task_energy_totals_uhf(ctx):
+    """unrestricted reference: gap[m, s] = e[m, s, nocc[m, s]] - e[m, s, nocc[m, s] - 1] for each molecule m and spin channel s
+    (occupations differ between molecules and between channels), totals and pass-through as in the restricted case."""
+    from contracts.C07_differentiability import _quiet
+
+    fn = ctx.under_contract(BAS + ":Energy.forward", stubs=["hamiltonian", "_prepare_molecule_inputs", "pair_nuclear_energy", "elec_energy", "calc_ground_dipole"])
+    rec = {}
+    occs = ([[4, 3], [1, 1]], [[3, 4], [1, 1]], [[4, 4], [2, 1]])
+
+    for occ in occs:
+        def thunk():
+            mol = ghost_es_molecule()
+            _const_tables(mol)
+            n = 4 * mol.molsize
+            mol.nocc = st.tensor(occ)
+            F = st.symbolic((mol.nmol, 2, n, n), "F")
+            e = st.symbolic((mol.nmol, 2, n), "e")
+            Pm = st.symbolic((mol.nmol, 2, n, n), "P")
+            ho = (F, e, Pm, st.symbolic((mol.nmol, n, n), "Hc"), st.symbolic((len(mol.pairs), 10, 10), "w"), st.symbolic((mol.nmol, mol.molsize), "chg"),
+                  st.symbolic((len(mol.pairs),), "rho0xi"), st.symbolic((len(mol.pairs),), "rho0xj"), None, None,
+                  st.T(np.array([boolean("nc0"), boolean("nc1")], dtype=object), st.bool, True), st.symbolic((mol.nmol, 2, n, n), "C"))
+            en = _make_energy(ho, extra={"uhf": True})
+            out = fn(en, mol, {}, all_terms=True)
+            return mol, ho, out
+
+        ex = ctx.explore(thunk, stubs=energy_stubs(rec), name="Energy.forward[UHF]")
+        tag = "nocc=%s" % ("/".join("%d,%d" % tuple(o) for o in occ))
+        if len(ex.paths) != 1 or ex.paths[0].raised is not None:
+            ctx.error(tag + ".paths", "expected one path: %r %s" % ([p.raised for p in ex.paths], ex.paths[0].notes.get("traceback", "")[-800:] if ex.paths else ""))
+            continue
+        mol, ho, out = ex.paths[0].value
+        Hf, Etot, Eelec, Enuc, Eiso_sum, EnucAB, e_gap, e, Pm, charge, notconv = out
+        pm = [int(x) for x in mol.pair_molid.a]
+        for m in range(mol.nmol):
+            for s in range(2):
+                no = occ[m][s]
+                ctx.prove_eq("%s.gap[%d,%s]=e[LUMO]-e[HOMO]" % (tag, m, "ab"[s]), e_gap.a[m, s], ho[1].a[m, s, no] - ho[1].a[m, s, no - 1],
+                             replay=lambda model: _quiet(replay_uhf_gap), classify=lambda m_, r: "uhf-gap")
+            nuc = sum(rec["EnucAB"].a[k] for k in range(len(pm)) if pm[k] == m)
+            ctx.prove_eq("%s.Etot[%d]=Eelec+Enuc" % (tag, m), Etot.a[m], rec["Eelec"].a[m] + nuc)
+            ctx.prove("%s.notconverged[%d]-is-the-SCF-flag" % (tag, m), notconv.a[m] == ho[10].a[m])
+        ctx.prove(tag + ".density-returned-is-the-SCF-density", E.and_(*[E.eq(a.n, b.n) for a, b in zip(Pm.a.reshape(-1), ho[2].a.reshape(-1))]))
+        ctx.prove(tag + ".orbital-energies-returned-are-the-SCF-ones", E.and_(*[E.eq(a.n, b.n) for a, b in zip(e.a.reshape(-1), ho[1].a.reshape(-1))]))
+        ctx.prove(tag + ".orbitals-published-are-the-SCF-ones", E.const(mol.molecular_orbitals is ho[11]))
+    ctx.assume_note("shape: batch [OH, HH] with (alpha, beta) occupations (4,3)/(1,1), (3,4)/(1,1), (4,4)/(2,1)")
+
+
 def task_binding(ctx):
     """Electronic_Structure.forward binds each published attribute to the right slot of the force evaluator's tuple and derives
     atomic charges from the density it publishes."""
@@ -240,5 +311,5 @@ def task_force_plumbing(ctx):
         ctx.prove("tuple[%d]<-%s" % (pos, slot), E.and_(*[E.eq(a.n, b.n) for a, b in zip(out[pos].a.reshape(-1), vals[slot].a.reshape(-1))]))
 
 
-TASKS_QUICK = ["energy_totals", "binding", "dipole", "force_plumbing"]
+TASKS_QUICK = ["energy_totals", "energy_totals_uhf", "binding", "dipole", "force_plumbing"]
 TASKS_THOROUGH = TASKS_QUICK
